@@ -170,6 +170,11 @@ def snapshot(data, strlen, order=None):
             if any(c is None for v in gv.variations.get(gn, []) for c in v.coordinates):
                 snap.setdefault("inferred", set()).add(gn)
     snap["cff"] = "CFF " in font or "CFF2" in font
+    if "CFF " in font:
+        # the matrix as STORED in the file (rawDict holds only what the bytes say; the attribute
+        # would fall back to a default that lives in the library)
+        td = TTFont(io.BytesIO(data))["CFF "].cff.topDictIndex[0]
+        snap["fontmatrix_stored"] = list(td.rawDict["FontMatrix"]) if "FontMatrix" in td.rawDict else None
     # a component transform multiplies the rounding error of the component's own points
     snap["compscale"] = 1.0
     if "glyf" in font:
@@ -511,7 +516,7 @@ class Scale(Unit):
     rule = ("scale_upem(font, new) for new in {16, 500, 1000, 1024, 2000, 2048, 2500, 16384} (integer and non-integer ratios, up and down) on every corpus/generated font with glyf/CFF/CFF2 outlines (AOTS family: a rotating sixth in quick), the smallest and largest value also on a lazily loaded font; font saved and reloaded; "
             "oracle: unitsPerEm is the new value; by glyph name every HarfBuzz outline coordinate, advance and shaping advance/offset equals old*factor within the rounding budget; table set, cmap, glyph names and shaped glyph sequences unchanged; distinct = (font, upem)")
     chunk = 4
-    required_witnesses = ("GPOS font", "CFF font", "gvar font", "kern table", "non-integer ratio", "downscale", "lazily loaded font")
+    required_witnesses = ("GPOS font", "CFF font", "gvar font", "kern table", "non-integer ratio", "downscale", "lazily loaded font", "CFF FontMatrix follows the em")
 
     def setup(self, tier, seed):
         load_fonts()
@@ -555,6 +560,21 @@ class Scale(Unit):
         if after["upem"] != new:
             rec.violation("scale:upem", "%s: unitsPerEm is %s after scale_upem(%s)" % (key, after["upem"], new))
         compare(before, after, new / old, rec, "scale", "%s upem %s->%s" % (key, old, new))
+        if "CFF " in font:
+            # the CFF FontMatrix maps glyph units to the em: it has to follow the units-per-em, and it has
+            # to be written into the file whenever it is not the specification's default
+            dflt = [0.001, 0, 0, 0.001, 0, 0]
+            was = before.get("fontmatrix_stored") or dflt
+            want = [v * old / new for v in was]
+            got = after.get("fontmatrix_stored") or dflt
+            if any(abs(a - b) > 1e-9 + 1e-6 * abs(b) for a, b in zip(got, want)):
+                rec.violation("scale:cff-fontmatrix", "%s upem %s->%s: FontMatrix stored in the result %s, expected %s" % (key, old, new, after.get("fontmatrix_stored"), want))
+            else:
+                rec.witness("CFF FontMatrix follows the em")
+            # nothing may leak into the library: a font loaded afterwards still sees the default matrix
+            fresh = TTFont(io.BytesIO(_FONTS[key]))["CFF "].cff.topDictIndex[0]
+            if "FontMatrix" not in fresh.rawDict and list(fresh.FontMatrix) != dflt:
+                rec.violation("scale:state-leak:default-FontMatrix", "%s: after scale_upem a freshly loaded font reports the default FontMatrix %s" % (key, list(fresh.FontMatrix)))
         rec.nontrivial()
         if "GPOS" in font:
             rec.witness("GPOS font")
